@@ -261,7 +261,7 @@ pub fn subs() -> Vec<Box<dyn DynSub>> {
 }
 
 pub fn run(ctx: &Ctx) {
-    let n = ctx.n(6_000_000, 100_000_000);
+    let n = ctx.n(6_000_000, 300_000_000);
     ctx.run_prop(&FromSecs, n);
     ctx.run_prop(&FromUnit, n);
     ctx.run_prop(&Reverse, n);
